@@ -648,8 +648,8 @@ fn wrap_rows(rows: &mut [RowRun], rng: &mut Rng) -> Deco {
             row.twins = rng.range(1, 3) as u8;
         }
         if row.repeat.is_some() && rng.chance(1, 4) {
-            // `+k`, `00k`, and on rows (whose value is unescaped) a character reference
-            row.repeat_spelling = rng.range(1, 4) as u8;
+            // `+k`, `00k`, a character reference, a blank before / after the digits
+            row.repeat_spelling = rng.range(1, 6) as u8;
         }
         // decorations that would turn a blank run into stored cells under a faulty reader are kept off huge runs, so that
         // such a reader yields a wrong range (a replayable finding) instead of exhausting memory
@@ -669,7 +669,7 @@ fn wrap_rows(rows: &mut [RowRun], rng: &mut Rng) -> Deco {
                 cell.self_closing = false;
             }
             if cell.repeat.is_some() && rng.chance(1, 4) {
-                cell.repeat_spelling = rng.range(1, 2) as u8;
+                cell.repeat_spelling = rng.range(1, 6) as u8;
             }
             if !cell.is_blank() && !cell.covered && rng.chance(1, 8) {
                 cell.span = Some((rng.range(1, 3) as usize, rng.range(1, 3) as usize));
@@ -1175,48 +1175,6 @@ fn run_file(rows: &[RowRun], deco: Deco, drv: &mut Driver, stored: bool) -> File
     FileOut { imp, model: [g(0), g(2)], spec: [g(1), g(3)], expect, typed }
 }
 
-/// Spellings of a repeat count that the unchanged reader does not take (a known finding, see findings/C04.json): a
-/// character reference in number-columns-repeated (the value is decoded but not unescaped there; on rows it is), and white
-/// space around the digits on either axis (legal for an xsd:positiveInteger). Files using them get their own signature.
-fn exotic_count_sig(rows: &[RowRun]) -> Option<&'static str> {
-    if rows.iter().any(|r| r.cells.iter().any(|c| c.repeat.is_some() && (c.repeat_spelling == 3 || c.repeat_spelling == 4))) {
-        return Some("count.cols.charref");
-    }
-    if rows.iter().any(|r| r.cells.iter().any(|c| c.repeat.is_some() && c.repeat_spelling >= 5)) {
-        return Some("count.cols.space");
-    }
-    if rows.iter().any(|r| r.repeat.is_some() && r.repeat_spelling >= 5) {
-        return Some("count.rows.space");
-    }
-    None
-}
-
-/// a small sheet whose positions depend on ONE count written in an exotic spelling
-fn gen_count_case(rng: &mut Rng) -> Vec<RowRun> {
-    let k = rng.range(2, 12) as usize;
-    let mut rows = vec![];
-    match rng.below(3) {
-        0 => {
-            let mut b = OdsCell::empty_run(k);
-            b.repeat_spelling = rng.range(3, 4) as u8;
-            rows.push(RowRun::new(vec![OdsCell::float(1.0), b, OdsCell::float(2.0)]));
-        }
-        1 => {
-            let mut b = OdsCell::float(3.0).times(k);
-            b.repeat_spelling = rng.range(5, 6) as u8;
-            rows.push(RowRun::new(vec![b, OdsCell::string("x")]));
-        }
-        _ => {
-            let mut r = RowRun::new(vec![OdsCell::empty()]).times(k);
-            r.repeat_spelling = rng.range(5, 6) as u8;
-            rows.push(RowRun::new(vec![OdsCell::float(1.0)]));
-            rows.push(r);
-            rows.push(RowRun::new(vec![OdsCell::float(2.0)]));
-        }
-    }
-    rows
-}
-
 /// rows x columns the sheet declares, blank runs included
 fn declared_extent(rows: &[RowRun]) -> u64 {
     let total_rows: u64 = rows.iter().map(|r| r.count() as u64).sum();
@@ -1436,9 +1394,10 @@ fn file_corpus() -> Vec<&'static str> {
         ":f3ff0000000000000>@0.0.0.1.0;_>@0.0.0.2.0;b1>@0.0.0.1.0;a71>@0.0.0.2.0;d323032312d30332d3034>@0.0.0.1.0;s61/:c>@0.0.0.1.0*2;t50543148>~@0.0.0.2.0;f4000000000000000/:s62",
         // seeded C04-m14: foreign-namespace twins of every attribute, before / after / around the real ones
         "P9.1.1024.0@Q0.3.0q2:_@0.0.1.0.0*2;f3ff0000000000000=6f663a3d31@0.0.2.0.0*2;s61@0.0.3.0.0;a71@0.0.1.0.0;b0@0.0.2.0.0;d323032312d30332d3034@0.0.3.0.0;_@0.0.3.0.0;f4000000000000000",
-        // known finding (count spellings the unchanged reader rejects): column count with a character reference, blanks around a count
+        // fixed (ddcfda3; found by this check): a column count with a character reference, blanks around a count on either axis
         ":f3ff0000000000000;_@0.0.0.0.3*3;f4000000000000000",
         ":f3ff0000000000000/Q0.0.5q3:_/:f4000000000000000",
+        ":f4008000000000000@0.0.0.0.5*7;s78/Q0.0.6q2:_@0.0.0.0.4*12;_@0.0.0.0.6*3;b1",
         // spans, annotations (on a value, a string, a blank), foreign attributes, hidden rows, soft page breaks
         "VKY:f3ff0000000000000^2x2#+~;c;s61#;_#*2;b1+/F:c;c;s782079#+",
     ]
@@ -1824,6 +1783,96 @@ fn run_cell(c: &CellCase, drv: &mut Driver) -> Option<(String, String, String, S
 }
 
 // ------------------------------------------------------------------------------------------------
+// count level: lexing of number-rows-repeated / number-columns-repeated
+// ------------------------------------------------------------------------------------------------
+
+const COUNT_PRE: [&str; 9] = ["", "", "", " ", "  ", "\t", "\n", "\u{a0}", "\u{3000}"];
+const COUNT_NUM: [&str; 14] = ["1", "2", "3", "7", "12", "100", "0", "16384", "1048576", "2147483647", "2147483648", "18446744073709551615", "18446744073709551616", ""];
+
+/// a spelling of a count (the attribute value after unescaping), mostly inside the lexical space of a positive integer
+fn gen_count_text(rng: &mut Rng) -> String {
+    let mut t = String::new();
+    t.push_str(*rng.pick(&COUNT_PRE));
+    t.push_str(*rng.pick(&["", "", "", "+", "+", "-", "++"]));
+    t.push_str(*rng.pick(&["", "", "0", "00"]));
+    t.push_str(*rng.pick(&COUNT_NUM));
+    if rng.chance(1, 8) {
+        t.push_str(*rng.pick(&[" 2", "e2", ".0", "x", "\u{ff11}", "\u{200b}", ","]));
+    }
+    t.push_str(*rng.pick(&COUNT_PRE));
+    t
+}
+
+/// the count lexed three ways: the Lean model, the std calls the reader makes (`trim().parse::<usize>()`), and the reader
+/// itself on a file whose positions depend on the count (axis 0: a blank column run, axis 1: a blank row run)
+fn run_count(text: &str, axis: u8, drv: &mut Driver) -> Option<(String, String, String, String, String)> {
+    let model = drv.ask(&format!("count {axis} {}", hex(text.as_bytes())));
+    // the column count is an i32 in the code (a minus sign is taken and repeats nothing), the row count a usize
+    let parsed: Option<i128> = if axis == 0 { text.trim().parse::<i32>().ok().map(|k| k as i128) } else { text.trim().parse::<usize>().ok().map(|k| k as i128) };
+    let lexed = parsed.map(|k| k.to_string()).unwrap_or("err".to_string());
+    if model != lexed {
+        return Some(("model_vs_spec".into(), "count.lexing".into(), String::new(), model, lexed));
+    }
+    let std_ = parsed.map(|k| k.max(0).to_string()).unwrap_or("err".to_string());
+    let model = std_.clone();
+    let mut imp = std_.clone();
+    // (a row repeat of 0 is outside ODF's positiveInteger and outside the property: the reader then returns one row too
+    // many, see claims/C04.json; only its lexing is compared)
+    // an unreadable count is only put into a file when it has few digits: a reader that takes it as a number must yield
+    // a wrong position, not exhaust memory
+    let few_digits = text.chars().filter(|c| c.is_ascii_digit()).count() <= 4;
+    let small = std_.parse::<usize>().map(|k| k <= 2000 && !(axis == 1 && k == 0)).unwrap_or(few_digits);
+    if small {
+        use verif_harness::odsw::escape_attr;
+        let mut blank = OdsCell::empty();
+        let rows = if axis == 0 {
+            blank.raw = Some(format!("<table:table-cell table:number-columns-repeated=\"{}\"/>", escape_attr(text)));
+            vec![RowRun::new(vec![OdsCell::float(1.0), blank, OdsCell::float(2.0)])]
+        } else {
+            vec![RowRun::new(vec![OdsCell::float(1.0)]), RowRun::new(vec![OdsCell::empty()]), RowRun::new(vec![OdsCell::float(2.0)])]
+        };
+        let mut book = OdsBook::new(vec![OdsSheet::new("Sheet1", rows)]);
+        let mut content = book.content_xml();
+        if axis == 1 {
+            // the middle row gets the count under test
+            content = content.replacen(
+                "</table:table-row><table:table-row>",
+                &format!("</table:table-row><table:table-row table:number-rows-repeated=\"{}\">", escape_attr(text)),
+                1,
+            );
+        }
+        book.stored = true;
+        let bytes = verif_harness::odsw::zip_parts(&book.manifest_xml(), &content, true);
+        imp = match guarded(|| {
+            let mut ods: Ods<_> = match Ods::new(Cursor::new(bytes)) {
+                Ok(o) => o,
+                Err(calamine::OdsError::ParseInt(_)) => return Err("err".to_string()),
+                Err(e) => return Err(format!("err:{e:?}")),
+            };
+            ods.worksheet_range("Sheet1").map_err(|e| format!("err:{e:?}"))
+        }) {
+            Err(p) => format!("panic:{p}"),
+            Ok(Err(e)) => e,
+            Ok(Ok(r)) => {
+                // where did the second value land?
+                match r.end() {
+                    Some(e) if axis == 0 && r.get_value(e) == Some(&Data::Float(2.0)) && e.0 == 0 && e.1 >= 1 => (e.1 - 1).to_string(),
+                    Some(e) if axis == 1 && r.get_value(e) == Some(&Data::Float(2.0)) && e.1 == 0 && e.0 >= 1 => (e.0 - 1).to_string(),
+                    other => format!("?{other:?}"),
+                }
+            }
+        };
+    }
+    if imp != std_ {
+        return Some(("impl_vs_spec".into(), "count.lexing".into(), imp, model, std_));
+    }
+    if model != std_ {
+        return Some(("model_vs_spec".into(), "count.lexing".into(), imp, model, std_));
+    }
+    None
+}
+
+// ------------------------------------------------------------------------------------------------
 // work streams (deterministic in the seed, independent of the number of threads)
 // ------------------------------------------------------------------------------------------------
 
@@ -1831,6 +1880,7 @@ enum Work {
     Unit(Flat),
     File(Vec<RowRun>, Deco, Option<TGrid>, bool),
     Cell(CellCase),
+    Count(String, u8),
 }
 
 struct Done {
@@ -1954,6 +2004,13 @@ fn process(w: &Work, drv: &mut Driver, shrink_budget: &mut u32) -> Done {
             }
             Done { text, nontrivial: f.rows().is_some(), counters, fail }
         }
+        Work::Count(t, axis) => {
+            let text = format!("K {} {}", axis, hex(t.as_bytes()));
+            let ok = if *axis == 0 { t.trim().parse::<i32>().is_ok() } else { t.trim().parse::<usize>().is_ok() };
+            let counters = vec![(if ok { "count.valid" } else { "count.invalid" }, 1)];
+            let fail = run_count(t, *axis, drv).map(|(k, sig, i, m, e)| (k, sig, text.clone(), i, m, e));
+            Done { text, nontrivial: ok, counters, fail }
+        }
         Work::Cell(c) => {
             let text = format!("C {}", c.text_form());
             let wf = c.expected().is_some();
@@ -1992,10 +2049,7 @@ fn process(w: &Work, drv: &mut Driver, shrink_budget: &mut u32) -> Done {
             file_counters(rows, &grid, &mut counters);
             let o = run_file(rows, deco, drv, *stored);
             let mut fail = None;
-            if let (Some((kind, _)), Some(xs)) = (judge_file(&o), exotic_count_sig(rows)) {
-                counters.push(("file.exotic_count_spelling", 1));
-                fail = Some((kind, xs.to_string(), text.clone(), format!("{} {}", show_out(&o.imp), o.typed.clone().unwrap_or_default()), show_out(&o.model), show_out(&o.expect)));
-            } else if let Some((kind, sig)) = judge_file(&o) {
+            if let Some((kind, sig)) = judge_file(&o) {
                 fail = Some((kind.clone(), sig, text.clone(), format!("{} {}", show_out(&o.imp), o.typed.clone().unwrap_or_default()), show_out(&o.model), show_out(&o.expect)));
                 if *shrink_budget > 0 {
                     *shrink_budget -= 1;
@@ -2051,15 +2105,16 @@ fn main() {
          string cells written as text:s elements with counts up to 1000; sheets without any stored cell in front of the sheet \
          under test, every sheet of the file checked; foreign-namespace twins (x:value-type, x:number-columns-repeated, x:value, \
          x:formula … with other values) before and/or after the real attributes of cells, rows and tables; tables nested in value \
-         and blank cells (sub-table, table in a draw:frame); repeat counts spelled +k, 00k, and on rows with character references; \
-         plus a few files per stream with the spellings the unchanged reader rejects — character reference in a column count, \
-         blanks around a count — reported under their own signature count.* as a known finding), read with Ods::worksheet_range and worksheet_formula and compared with the bounding-box oracle \
+         and blank cells (sub-table, table in a draw:frame); repeat counts of cells and rows spelled +k, 00k, with a decimal or hexadecimal character reference, or with a blank \
+         before / after the digits), read with Ods::worksheet_range and worksheet_formula and compared with the bounding-box oracle \
          of the grid, the Lean model getRange(collectV/collectF runs) and the Lean spec bbox/expand. cell: one table-cell element whose \
          attributes (value-type, 0..2 value attributes, formula, foreign attributes incl. calcext:value-type) stand in random order, \
          70 % well-formed (one value-type with its matching value attribute or text content), attributes spelled with either quote and any white space around `=`, string content with a `text:s` whose \
          text:c is around 32/33/64/100/1000, absent, 0, signed, negative or unreadable, read through the public API vs the \
-         Lean model of get_datatype's attribute loop vs the typing the property states. non-trivial = a well-formed unit input / a grid \
-         with at least one non-empty value / a well-formed cell; distinct by input text",
+         Lean model of get_datatype's attribute loop vs the typing the property states. count: attribute values around the lexical space of a positive integer (Unicode \
+         white space, signs, leading zeros, 0, 2^64-1, 2^64, garbage) lexed by the Lean model parseCount, by the std calls the reader \
+         makes, and by the reader itself on a file whose positions depend on the count (both axes). non-trivial = a well-formed \
+         unit input / a grid with at least one non-empty value / a well-formed cell / a valid count; distinct by input text",
     );
     if let Some(inp) = &args.replay {
         let mut drv = Driver::spawn(&args.driver);
@@ -2069,6 +2124,9 @@ fn main() {
             Work::Unit(Flat { cells: parse_list(p[0]), cols: parse_list(p[1]), reps: parse_list(p[2]) })
         } else if kind == "C" {
             Work::Cell(CellCase::parse(body))
+        } else if kind == "K" {
+            let (axis, h) = body.split_once(' ').expect("count case");
+            Work::Count(String::from_utf8(unhex(h)).unwrap(), axis.parse().unwrap())
         } else {
             let (rows, deco) = parse_sheet(body);
             Work::File(rows, deco, None, false)
@@ -2122,7 +2180,7 @@ fn main() {
                         }
                         let d = process(&w, drv, budget);
                         if let Some(f) = &d.fail {
-                            if f.0 == "impl_vs_spec" && !f.1.starts_with("count.") {
+                            if f.0 == "impl_vs_spec" {
                                 *stream_failed = true;
                             }
                         }
@@ -2137,6 +2195,10 @@ fn main() {
                         for c in file_corpus() {
                             let (rows, deco) = parse_sheet(c);
                             let w = Work::File(rows, deco, None, false);
+                            run(w, &mut drv, &mut budget, &mut deferred, &mut stream_failed);
+                        }
+                        for (t, axis) in [("3", 0u8), (" 3", 0), ("3 ", 1), ("+3", 0), ("003", 1), ("\t+007\n", 0), ("0", 1), ("", 0), ("+", 1), ("-1", 0), ("1 2", 1), ("1e2", 0), ("\u{a0}5\u{3000}", 1), ("18446744073709551616", 0)] {
+                            let w = Work::Count(t.to_string(), axis);
                             run(w, &mut drv, &mut budget, &mut deferred, &mut stream_failed);
                         }
                         for c in cell_corpus() {
@@ -2157,13 +2219,12 @@ fn main() {
                         let w = Work::Unit(gen_flat(&mut urng));
                         run(w, &mut drv, &mut budget, &mut deferred, &mut stream_failed);
                     }
-                    for _ in 0..share(n_cell) {
-                        let w = Work::Cell(gen_cell(&mut frng));
+                    for _ in 0..share(n_cell / 2) {
+                        let w = Work::Count(gen_count_text(&mut frng), frng.below(2) as u8);
                         run(w, &mut drv, &mut budget, &mut deferred, &mut stream_failed);
                     }
-                    for _ in 0..share(n_grid / 20) {
-                        let rows = gen_count_case(&mut frng);
-                        let w = Work::File(rows, NO_DECO, None, false);
+                    for _ in 0..share(n_cell) {
+                        let w = Work::Cell(gen_cell(&mut frng));
                         run(w, &mut drv, &mut budget, &mut deferred, &mut stream_failed);
                     }
                     for _ in 0..share(n_grid) {
